@@ -44,8 +44,10 @@ class DEDeme(AbstractDeme):
     def run_metaepoch(self, tree) -> None:
         epoch_counter = 0
         metaepoch_generations = []
+        parents = self.current_population
         while epoch_counter < self._generations:
-            offspring = self._de.run(self.current_population)
+            offspring = self._de.run(parents)
+            parents = offspring
 
             epoch_counter += 1
             metaepoch_generations.append(offspring)
